@@ -1,4 +1,4 @@
-module verifharness
+module verifharness_resp
 
 go 1.19
 
